@@ -39,6 +39,9 @@ SCHEMA = {
     'SegmentChainer': {'sequentialityScorer': OBJ('SequentialityScorer')},
     '_ConflictingSegmentCharacteristics': {'positions': LIST(PWS), 'scores': LIST(REAL), 'indexes': LIST(INT)},
     'PeaksSelector': {'count': INT},
+    'SelectedPeak': {'primaryCorrelation': OBJ('InitialAlignment', 'EmptyInitialAlignment'), 'peak': PEAK},
+    'CorrelationResult': {'peaks': LIST(PEAK), 'query': OMAP, 'reference': OMAP, 'reverseStrand': BOOL,
+                          'resolution': INT, 'blur': INT},
     'AlignmentResultRow': {'queryId': INT, 'referenceId': INT, 'queryStartPosition': REAL, 'queryEndPosition': REAL,
                            'referenceStartPosition': REAL, 'referenceEndPosition': REAL, 'reverseStrand': BOOL,
                            'confidence': REAL, 'queryLength': REAL, 'referenceLength': REAL, 'segments': LIST(SEG),
